@@ -99,6 +99,10 @@ def py_attr(ex, obj, attr, node):
     return VPy('regex_match', obj.payload)
   if obj.what == 'func' and attr in ('__name__',):
     return VStr(obj.payload.split('::')[-1])
+  if obj.what == 'recclass':
+    f = RECORD_CLASSES[obj.payload][0]
+    if attr in ex.repo.class_methods(f, obj.payload):
+      return VPy('func', f'{f}::{obj.payload}.{attr}')
   return None
 
 
@@ -177,16 +181,42 @@ def make_record(ex, cname, args, kwargs, node):
   return VRecord(kind, {n: coerce(fields[n], kind.fields[n]) for n in kind.fields})
 
 
+def _dunder(ex, obj, name):
+  if not isinstance(obj, VRecord) or obj.kind.rname not in RECORD_CLASSES:
+    return None
+  fname = RECORD_CLASSES[obj.kind.rname][0]
+  if name in ex.repo.class_methods(fname, obj.kind.rname):
+    return VPy('method', (obj, name))
+  return None
+
+
 def contains(ex, coll, x, node):
+  m = _dunder(ex, coll, '__contains__')
+  if m is not None:
+    return ex.truth(ex.call(m, [x], {}, node), node)
   return None
 
 
 def get_item(ex, obj, idx, node):
+  m = _dunder(ex, obj, '__getitem__')
+  if m is not None:
+    return ex.call(m, [idx], {}, node)
   return None
 
 
 def set_item(ex, obj, idx, v, node):
+  m = _dunder(ex, obj, '__setitem__')
+  if m is not None:
+    ex.call(m, [idx, v], {}, node)
+    return True
   return False
+
+
+def len_of(ex, v, node):
+  m = _dunder(ex, v, '__len__')
+  if m is not None:
+    return ex.call(m, [], {}, node)
+  return None
 
 
 def get_slice(ex, obj, lo, hi, step, node):
